@@ -45,19 +45,38 @@ def numOK (d : List Char) : Bool :=
      | c1 :: u => if c1 = '.' then expOK (u.dropWhile isDigit) else expOK (c1 :: u)) &&
     f64Parses d
 
-/-- an identifier the A1 identifier branch returns as `Ident` when nothing glues to it -/
+/-- R1C1 mode: consume_reference_r1c1 fails INSIDE the name, whatever follows it: the name does not
+    start with `R`, or its second character is not a digit (it cannot be a sign or a bracket).
+    Excluded: the name `R` and names like `R1C`, `R2D2` (tied by the differential run; in the pinned
+    tree `R1C+1` was read as the reference R1C1: finding F26-r1c-name, repaired). -/
+def rcSafe (s : List Char) : Bool :=
+  match s with
+  | [] => false
+  | c :: t =>
+    c != 'R' || (match t with
+      | [] => false
+      | d :: _ => !isDigit d)
+
+/-- an identifier the identifier branch returns as `Ident` when nothing glues to it -/
 def identOK (cfg : LexCfg) (s : List Char) : Bool :=
   (match s with
    | [] => false
    | c :: _ => isIdentStart cfg.cc c) &&
   s.all (isIdentChar cfg.cc) &&
   upperStr cfg s != cfg.trueName && upperStr cfg s != cfg.falseName &&
-  (parseReferenceA1 (upperStr cfg s)).isNone &&
+  (if cfg.a1 then (parseReferenceA1 (upperStr cfg s)).isNone else rcSafe s) &&
   isValidA1Identifier cfg s
 
 /-- a cell on the grid (what C22 calls `InGrid 0 0`) -/
 def refOK (r : PRef) : Bool :=
   decide (1 ≤ r.row) && decide (r.row ≤ 1048576) && decide (1 ≤ r.column) && decide (r.column ≤ 16384)
+
+/-- R1C1 mode: row and column are `i32`s; an absolute one (written without brackets) is not
+    negative (C22 `RcWritable`) -/
+def refOKRC (r : PRef) : Bool :=
+  decide (-2147483648 ≤ r.row) && decide (r.row ≤ 2147483647) &&
+  decide (-2147483648 ≤ r.column) && decide (r.column ≤ 2147483647) &&
+  (!r.absRow || decide (0 ≤ r.row)) && (!r.absCol || decide (0 ≤ r.column))
 
 /-- a sheet name the printer can write and the lexer reads back: not empty -/
 def sheetOK : Option (List Char) → Bool
@@ -72,8 +91,10 @@ def tokOK (cfg : LexCfg) : CTok → Bool
   | .bool _ => true
   | .err e => cfg.errors.any (fun p => p.2 = e)
   | .comma => cfg.decimal != ','
-  | .ref sh r => sheetOK sh && refOK r
-  | .range sh l r => sheetOK sh && refOK l && refOK r   -- `A1:B2`, and whole columns / rows `A:C`, `3:5`
+  | .ref sh r => sheetOK sh && (if cfg.a1 then refOK r else refOKRC r)
+  | .range sh l r =>
+    -- A1: `A1:B2`, and whole columns / rows `A:C`, `3:5`; R1C1: `R1C1:R[2]C[2]`
+    sheetOK sh && (if cfg.a1 then refOK l && refOK r else refOKRC l && refOKRC r)
   | .sref _ _ _ => false       -- structured references have no printed form in stringify.rs
   | _ => true
 
@@ -87,18 +108,25 @@ def badNext (cfg : LexCfg) (t : CTok) (c : Char) : Bool :=
   | .cmp .lt => c = '=' || c = '>'
   | .cmp .gt => c = '='
   | .str _ => c = '"'
-  | .num _ => isDigit c || c = cfg.decimal || c = 'e' || c = 'E' || c = ':' || cfg.cc.white c
+  | .num _ =>
+    -- (A1 only: a number before `:` starts a row range, and `peek_token` skips white space)
+    isDigit c || c = cfg.decimal || c = 'e' || c = 'E' || (cfg.a1 && (c = ':' || cfg.cc.white c))
   | .ident s =>
     isIdentChar cfg.cc c || c = '!' || c = '$' || c = '[' ||
-      (c = ':' && isValidColumn (upperStr cfg s))
+      (cfg.a1 && (c = ':' && isValidColumn (upperStr cfg s)))
   | .bool _ => isIdentChar cfg.cc c || c = '!' || c = '$'
   | .spill => errSecond cfg.errors c
   | .ref sh r =>
-    if sh.isNone && !r.absCol && !r.absRow then
+    if !cfg.a1 then
+      -- R1C1: an unqualified reference is read by the identifier branch; `:` may start a range
+      isIdentChar cfg.cc c || c = '!' || c = '$' || c = '(' || c = ':'
+    else if sh.isNone && !r.absCol && !r.absRow then
       -- the plain form `A1` is read by the identifier branch
       isIdentChar cfg.cc c || c = '!' || c = '$' || c = '(' || c = ':'
     else isDigit c || c = ':'
-  | .range _ l r => if fullRowOf l r || fullColOf l r then isAlphaOrDigit c else isDigit c
+  | .range _ l r =>
+    if !cfg.a1 then isIdentChar cfg.cc c || c = '!' || c = '$' || c = '('
+    else if fullRowOf l r || fullColOf l r then isAlphaOrDigit c else isDigit c
   | _ => false
 
 def follow (cfg : LexCfg) (t : CTok) (rest : List Char) : Bool :=
@@ -127,9 +155,9 @@ def specials : List Char :=
 
 def isAsciiSpecial (c : Char) : Bool := specials.contains c
 
-/-- what the theorems need of a configuration (all of it decidable on a concrete one) -/
-structure CfgOK (cfg : LexCfg) : Prop where
-  a1 : cfg.a1 = true
+/-- what the theorems need of a configuration in either lexer mode (all of it decidable on a
+    concrete one) -/
+structure CfgBase (cfg : LexCfg) : Prop where
   decimal : cfg.decimal = '.' ∨ cfg.decimal = ','
   /-- white space is none of the characters a token starts with -/
   white_special : ∀ c, isAsciiSpecial c = true → cfg.cc.white c = false
@@ -151,5 +179,16 @@ structure CfgOK (cfg : LexCfg) : Prop where
   /-- a boolean name is not spelled like a column (`TRUE:` is not the start of a column range) -/
   true_not_col : isValidColumn cfg.trueName = false
   false_not_col : isValidColumn cfg.falseName = false
+
+/-- A1 mode (the display path) -/
+structure CfgOK (cfg : LexCfg) : Prop extends CfgBase cfg where
+  a1 : cfg.a1 = true
+
+/-- R1C1 mode (the stored form) -/
+structure CfgRC (cfg : LexCfg) : Prop extends CfgBase cfg where
+  rc : cfg.a1 = false
+
+instance (cfg : LexCfg) : Coe (CfgOK cfg) (CfgBase cfg) := ⟨CfgOK.toCfgBase⟩
+instance (cfg : LexCfg) : Coe (CfgRC cfg) (CfgBase cfg) := ⟨CfgRC.toCfgBase⟩
 
 end IronCalc.Formula
